@@ -340,23 +340,28 @@ func (e *migEnv) observe(ctx context.Context, c *migCase, root, input string) *m
 	return o
 }
 
-// breaking runs what `buf breaking <input> --against <against>` runs: image i against image i.
-// mismatch is returned when the CLI would refuse because of the image count.
-func (o *migObs) breaking(ctx context.Context, root string, against []bufctl.ImageWithConfig) (set []string, mismatch bool, errText string) {
+// breaking runs what `buf breaking <input> --against <against>` runs: image i against image i; the
+// annotations are kept per module of the input image. mismatch is returned when the CLI would refuse
+// because of the image count.
+func (o *migObs) breaking(ctx context.Context, root string, against []bufctl.ImageWithConfig) (sets map[string][]string, mismatch bool, errText string) {
 	if len(o.images) != len(against) {
 		return nil, true, fmt.Sprintf("input contained %d images, whereas against contained %d images", len(o.images), len(against))
 	}
 	all := migCheckOptions(o.images)
-	var anns []migAnn
+	anns := map[string][]migAnn{}
 	for i, iwc := range o.images {
 		err := o.client.Breaking(ctx, iwc.BreakingConfig(), iwc, bufimage.Image(against[i]), bufcheck.WithPluginConfigs(iwc.PluginConfigs()...), bufcheck.WithRelatedCheckConfigs(all...))
 		as, err := migFlatten(root, err)
 		if err != nil {
 			return nil, false, fmt.Sprintf("image %d (%s): %v", i, o.modOf[i], err)
 		}
-		anns = append(anns, as...)
+		anns[o.modOf[i]] = append(anns[o.modOf[i]], as...)
 	}
-	return migAnnSet(anns), false, ""
+	sets = map[string][]string{}
+	for _, mod := range o.modOf {
+		sets[mod] = migAnnSet(anns[mod])
+	}
+	return sets, false, ""
 }
 
 // ---------------------------------------------------------------------------------------------
@@ -450,7 +455,7 @@ func migOracle(tb evid.TB, env *migEnv, c *migCase, st *migStats) (string, strin
 	}
 	inputs := c.Inputs
 	before := map[string]*migObs{}
-	beforeBreaking := map[string][]string{}
+	beforeBreaking := map[string]map[string][]string{}
 	against := map[string][]bufctl.ImageWithConfig{}
 	for _, in := range inputs {
 		o := env.observe(ctx, c, W, in)
@@ -483,7 +488,9 @@ func migOracle(tb evid.TB, env *migEnv, c *migCase, st *migStats) (string, strin
 		for _, l := range o.lint {
 			st.lintAnns += len(l)
 		}
-		st.breakingAnns += len(set)
+		for _, l := range set {
+			st.breakingAnns += len(l)
+		}
 	}
 
 	// migrate in place, the way `buf config migrate` (no flags) does in its working directory
@@ -599,18 +606,20 @@ func migOracle(tb evid.TB, env *migEnv, c *migCase, st *migStats) (string, strin
 			return key, fmt.Sprintf("breaking against the un-migrated copy works before migration, fails after: %s\n%s", errText, ctxText)
 		}
 		st.breakingCompared++
-		if onlyB, onlyA := migDiffSets(beforeBreaking[in], set); len(onlyB)+len(onlyA) > 0 {
-			key := "migration:breaking-results-differ"
-			for _, m := range c.Modules {
-				if _, brkOff := c.checksDisabled(m.Dir); brkOff && (in == "." || in == m.Dir) {
-					key = "migration:disabled-checks-reenabled"
-				}
-				if m.NoBufYAML && (in == "." || in == m.Dir) {
-					key = "migration:no-buf-yaml-module-gets-v2-defaults"
-				}
+		for _, mod := range migKeys(beforeBreaking[in]) {
+			onlyB, onlyA := migDiffSets(beforeBreaking[in][mod], set[mod])
+			if len(onlyB)+len(onlyA) == 0 {
+				continue
 			}
-			return key, fmt.Sprintf("breaking annotations only before (%d):\n  %s\nonly after (%d):\n  %s\n%s",
-				len(onlyB), strings.Join(onlyB, "\n  "), len(onlyA), strings.Join(onlyA, "\n  "), ctxText)
+			key := "migration:breaking-results-differ"
+			if _, brkOff := c.checksDisabled(mod); brkOff {
+				key = "migration:disabled-checks-reenabled"
+			}
+			if c.noBufYAML(mod) {
+				key = "migration:no-buf-yaml-module-gets-v2-defaults"
+			}
+			return key, fmt.Sprintf("module %q: breaking annotations only before (%d):\n  %s\nonly after (%d):\n  %s\n%s",
+				mod, len(onlyB), strings.Join(onlyB, "\n  "), len(onlyA), strings.Join(onlyA, "\n  "), ctxText)
 		}
 	}
 	return "", ""
@@ -805,5 +814,84 @@ func replayMigration(t *testing.T, raw json.RawMessage) {
 	r.Eval()
 	if key != "" {
 		r.Fail(t, key, msg, &c)
+	}
+}
+
+// ---------------------------------------------------------------------------------------------
+// directed regressions: one minimal workspace per known migration defect
+
+type migDirected struct {
+	key  string
+	what string
+	c    migCase
+}
+
+func migDirectedCases() []migDirected {
+	const src = "syntax = \"proto3\";\n\npackage a.v1;\n\nmessage foo_bar {\n  string bar = 1;\n}\n"
+	const old = "syntax = \"proto3\";\n\npackage a.v1;\n\nmessage foo_bar {\n  string bar = 1;\n  string gone = 2;\n}\n"
+	single := func(version, bufYAML string) migCase {
+		return migCase{
+			Kind: "migration", Layout: "root", Inputs: []string{"."},
+			Modules: []migCaseMod{{Dir: ".", Version: version}},
+			Files:   map[string]string{"buf.yaml": bufYAML, "a/v1/a.proto": src},
+			Against: map[string]string{"buf.yaml": bufYAML, "a/v1/a.proto": old},
+		}
+	}
+	const req = "syntax = \"proto2\";\n\npackage a.v1;\n\nmessage Foo {\n  required string bar = 1;\n}\n"
+	const work = "version: v1\ndirectories:\n  - proto\n"
+	return []migDirected{
+		{"migration:emitted-v1beta1-only-id", "a v1beta1 buf.yaml with the default lint rules migrates to `use: [FIELD_NO_DESCRIPTOR]`, an id unknown to v2",
+			single("v1beta1", "version: v1beta1\n")},
+		{"migrate-failed:deprecated-id", "a deprecated breaking id that no longer exists in v2 is not translated; migration fails",
+			single("v1", "version: v1\nbreaking:\n  use:\n    - FILE\n    - FIELD_SAME_LABEL\n")},
+		{"migrate-failed:v1beta1-only-id", "a v1beta1-only lint category makes migration fail",
+			single("v1beta1", "version: v1beta1\nlint:\n  use:\n    - FILE_LAYOUT\n")},
+		{"migration:disabled-checks-reenabled", "lint switched off with `ignore: [.]` is switched on by migration",
+			single("v1", "version: v1\nlint:\n  ignore:\n    - \".\"\n")},
+		{"migration:emitted-empty-rule-set", "v1beta1 `breaking.except: [WIRE_JSON]` migrates to a v2 configuration whose rule set is empty",
+			single("v1beta1", "version: v1beta1\nlint:\n  use:\n    - ENUM_PASCAL_CASE\nbreaking:\n  except:\n    - WIRE_JSON\n")},
+		{"migrate-failed:empty-rule-set", "v1beta1 `breaking.use: [FILE_SAME_PACKAGE], except: [PACKAGE]` makes migration fail with a system error",
+			single("v1beta1", "version: v1beta1\nlint:\n  use:\n    - ENUM_PASCAL_CASE\nbreaking:\n  use:\n    - FILE_SAME_PACKAGE\n  except:\n    - PACKAGE\n")},
+		{"migration:no-buf-yaml-module-gets-v2-defaults", "a workspace directory without buf.yaml gets the v2 default rules instead of the v1 ones",
+			migCase{
+				Kind: "migration", Layout: "work", Inputs: []string{".", "proto"},
+				Modules: []migCaseMod{{Dir: "proto", Version: "v1", NoBufYAML: true}},
+				Files:   map[string]string{"buf.work.yaml": work, "proto/a/v1/a.proto": req},
+				Against: map[string]string{"buf.work.yaml": work, "proto/a/v1/a.proto": req},
+			}},
+	}
+}
+
+// TestMigrationKnownFindings re-observes every known migration defect on its minimal workspace
+// (shard 0 only). A defect that is no longer observed is silently passed.
+func TestMigrationKnownFindings(t *testing.T) {
+	r := evid.R()
+	if !r.Mine(0) {
+		t.Skip("runs in shard 0 only")
+	}
+	home, err := os.MkdirTemp("", "c16mighome")
+	if err != nil {
+		t.Fatalf("harness: %v", err)
+	}
+	defer os.RemoveAll(home)
+	env, err := migNewEnv(home)
+	if err != nil {
+		t.Fatalf("harness: %v", err)
+	}
+	for _, d := range migDirectedCases() {
+		d := d
+		t.Run(strings.NewReplacer(":", "_").Replace(d.key), func(t *testing.T) {
+			defer r.Begin(t)()
+			st := &migStats{}
+			key, msg := migOracle(t, env, &d.c, st)
+			r.Eval()
+			r.Class("mig-directed-regression")
+			if key == "" {
+				r.Class("mig-directed-regression-not-observed")
+				return
+			}
+			// key is normally d.key; any other key is a different falsification of the same property.
+			r.Fail(t, key, fmt.Sprintf("directed regression (%s): %s", d.what, msg), &d.c)
+		})
 	}
 }
